@@ -132,7 +132,7 @@ func sameResult(a, b result) bool {
 	return true
 }
 
-func coqEntries(es []codec.VerifCacheEntry) string {
+func coqEntries(es []codec.VerifC06CacheEntry) string {
 	if len(es) == 0 {
 		return "[]"
 	}
@@ -164,7 +164,7 @@ func coqKeys(ks []uintptr) string {
 	return sb.String()
 }
 
-func keysOf(es []codec.VerifCacheEntry) []uintptr {
+func keysOf(es []codec.VerifC06CacheEntry) []uintptr {
 	out := make([]uintptr, len(es))
 	for i, e := range es {
 		out[i] = e.Rtid
@@ -301,8 +301,8 @@ trials:
 			}
 		}
 		// cache snapshots
-		sc, ss := codec.VerifCacheSnapshot(hc), codec.VerifCacheSnapshot(hs)
-		if !codec.VerifHandleInited(hc) {
+		sc, ss := codec.VerifC06CacheSnapshot(hc), codec.VerifC06CacheSnapshot(hs)
+		if !codec.VerifC06HandleInited(hc) {
 			sum.FailC("cache", "init:"+format, "Handle not marked initialised after use", cj)
 		}
 		total := 0
@@ -359,7 +359,7 @@ trials:
 				if conc[g][j].err || conc[g][j].pan != "" {
 					continue
 				}
-				rtid := codec.VerifRtid(types[o.ti])
+				rtid := codec.VerifC06Rtid(types[o.ti])
 				dir, tr := "enc", "Bytes"
 				if o.dec {
 					dir = "dec"
